@@ -1231,3 +1231,36 @@ def field_accesses(crate, owner, field, bodies=None):
                 if field_index(s["rv"]["op"]["pl"], owner, field) is not None:
                     out.append({"body": b, "bb": bb, "idx": idx, "kind": "read", "callee": None, "mut": s["rv"]["op"]["k"] == "move"})
     return out
+
+
+def runs_every_iteration(body, call_bb):
+    """call_bb lies in a `for` loop and every complete iteration (from the Some edge of the loop's Iterator::next back to
+    that next call) passes through it. Returns (ok, detail)."""
+    loops = [l for l in body.loops() if call_bb in l]
+    if not loops:
+        return False, "not inside a loop"
+    ef = EdgeFacts(body, body.crate)
+    tr = Tracer(body, transparent=set())
+    for L in sorted(loops, key=len):
+        # the loop's own `next` call: the one whose Option result is switched with an edge leaving L
+        for nb, nt in find_calls(body, ["std::iter::Iterator::next"], blocks=sorted(L)):
+            dest = nt["dest"]["l"]
+            for sb in L:
+                t = body.term(sb)
+                if t["k"] != "switch" or t["op"]["k"] == "const" or t["op"]["pl"]["p"]:
+                    continue
+                d = ef.single_def(t["op"]["pl"]["l"])
+                if not (d and d[3]["k"] == "discr" and d[3]["pl"]["l"] == dest and not d[3]["pl"]["p"]):
+                    continue
+                if all(x in L for x in body.succ[sb]):
+                    continue
+                for tgt, fl in ef.facts_for_switch(sb).items():
+                    for f in fl:
+                        if f[0] == "variant" and "Some" in f[3] and len(f[3]) == 1 and tgt in L:
+                            reach = body.reach_from(tgt, removed_blocks=frozenset([call_bb]) | (set(range(body.n)) - L))
+                            if tgt == call_bb:
+                                return True, "first block of the iteration"
+                            if nb in reach:
+                                return False, "an iteration can return to the loop head at %s without passing the call" % body.where(nb)
+                            return True, "every iteration passes the call"
+    return False, "loop shape not recognised"
